@@ -94,7 +94,11 @@ def run_unit(unit, ctx):
                                    n_reading=(1, 3), depth=1, n_shared=(0, 1), allow_text=False)
     b = build.Built(defn)
     k = rng.choice([None, None, 2.0, 5.0])
-    cfg = python.Config(common_subexpression_elimination=rng.random() < 0.5, innovation_filtering=k)
+    # the adapter's step is fixed (0.1) whatever the other configuration fields say
+    md = rng.choice([0.1, 0.1, 0.02, 0.5, 0.0123456789, 1.0])
+    if md != 0.1:
+        R.stats.inc("estimators_with_non_default_max_dt_sec")
+    cfg = python.Config(common_subexpression_elimination=rng.random() < 0.5, innovation_filtering=k, max_dt_sec=md)
     ad = python.SklearnEKFAdapter.Create(b.ui_model, b.process_noise, b.sensor_models, b.sensor_noises,
                                          b.calibration_map, config=cfg)
     width = len(defn["control"]) + sum(len(rd) for rd in defn["sensors"].values())
